@@ -122,7 +122,8 @@ def replay_groups(ctx, vh, vals, groups, kinds, carriers):
             summary = r
             continue
         g = byid[r["gid"]]
-        if r["rules"] != rule_text(g):
+        # (the harness spells the bounds of one rule text in four with leading zeros: 010 is ten)
+        if re.sub(r"(?<![0-9])(-?)0+(?=[0-9])", r"\1", r["rules"].split("|")[0]) + r["rules"][len(r["rules"].split("|")[0]):] != rule_text(g):
             raise MachineryError("rule text differs between harness and orchestrator: %r / %r" % (r["rules"], rule_text(g)))
         viol, near = g["viol"], g["near"]
         st["vectors"] += len(viol)
